@@ -355,7 +355,12 @@ def run_cli(argv, cwd, scratch_dir, env_extra=None, stdin_text=None, timeout=120
     timed_out = False
     if mode == "exec":
         with open(out_path, "wb") as fo, open(err_path, "wb") as fe:
-            p = subprocess.Popen([common.PY, "-m", "conductor"] + list(argv), cwd=cwd, env=env, stdout=fo, stderr=fe,
+            prefix = []
+            if opts.get("unprivileged"):
+                # the checks run as root, whose CAP_DAC_OVERRIDE makes permission bits meaningless; an ordinary user's
+                # view is obtained by dropping those capabilities for the cond process (and everything it starts)
+                prefix = ["setpriv", "--bounding-set", "-dac_override,-dac_read_search,-fowner"]
+            p = subprocess.Popen(prefix + [common.PY, "-m", "conductor"] + list(argv), cwd=cwd, env=env, stdout=fo, stderr=fe,
                                  stdin=open(stdin_path) if stdin_path else subprocess.DEVNULL, start_new_session=True)
             try:
                 p.wait(timeout=timeout)
